@@ -166,7 +166,7 @@ LenientCases == <<
   [kind |-> "lenient", fn |-> HsFn, len |-> 0, bytes |-> <<11, 0, 0, 8, 0, 0, 5, 0, 0, 1, 48, 0>>, val |-> 0, extra |-> 0],
   [kind |-> "lenient", fn |-> HsFn, len |-> 0, bytes |-> <<11, 0, 0, 9, 0, 0, 6, 0, 0, 1, 48, 0, 0>>, val |-> 0, extra |-> 0] >>
 
-ASSUME TLCSet(4, SelectSeq([j \in 1..Len(Vals) |-> j], LAMBDA j : Len(BodyOf(j)) <= 120 /\ j % 3 = 0))
+ASSUME TLCSet(4, SelectSeq([j \in 1..Len(Vals) |-> j], LAMBDA j : Len(BodyOf(j)) <= (IF Thorough THEN 400 ELSE 120) /\ (Thorough \/ j % 3 = 0)))
 ASSUME TLCSet(1, MsgCases \o BodyCases \o CutCases \o HlCases \o RejectCases \o UnknownTypeCases \o LenientCases)
 Cases == TLCGet(1)
 V(j) == TLCGet(2)[j]
